@@ -375,6 +375,12 @@ func (c *Collection) WriteCas(key string, exp Exp, cas CAS, val any, opt sgbucke
 			return nil, err
 		}
 		casOut = newCas
+		if (opt & sgbucket.Append) != 0 {
+			// The event describes the whole document, not just the appended bytes:
+			if raw, _, _, err = c.getRaw(txn, key); err != nil {
+				return nil, err
+			}
+		}
 		return &event{
 			key:        key,
 			value:      raw,
